@@ -9,6 +9,7 @@ package main
 
 import (
 	"fmt"
+	"net"
 	"strings"
 	"time"
 
@@ -33,6 +34,7 @@ type cfg struct {
 	fclose   bool // the peer closes its socket (instead of shutting down its write side)
 	conns    int
 	p, d     int
+	addrs    string // udp: how the two remotes' addresses differ (v4-ports | v4-ips | v6-ports | v6-ips | v6-zones)
 }
 
 func (c cfg) name() string {
@@ -44,7 +46,58 @@ func (c cfg) name() string {
 	if c.fclose {
 		f = "close"
 	}
-	return fmt.Sprintf("%s %s %s np=%d b=%d max=%d bursts=%v fin=%s conns=%d", c.trans, c.mode, a, c.npoller, c.b, c.maxReads, c.bursts, f, c.conns)
+	n := fmt.Sprintf("%s %s %s np=%d b=%d max=%d bursts=%v fin=%s conns=%d", c.trans, c.mode, a, c.npoller, c.b, c.maxReads, c.bursts, f, c.conns)
+	if c.addrs != "" && c.addrs != "v4-ports" {
+		n += " remotes=" + c.addrs
+	}
+	return n
+}
+
+// remoteAddr maps a remote's label (7001, 7002) to its socket address in the given address set:
+// the two remotes differ only in the port, only in the IP, or (IPv6) only in the zone.
+func remoteAddr(set string, label int) vsys.Sockaddr {
+	second := label != 7001
+	v6 := func(last byte, port int, zone uint32) vsys.Sockaddr {
+		a := &vsys.SockaddrInet6{Port: port, ZoneId: zone}
+		a.Addr[0], a.Addr[1], a.Addr[15] = 0xfd, 0x00, last
+		return a
+	}
+	switch set {
+	case "v4-ips":
+		if second {
+			return &vsys.SockaddrInet4{Addr: [4]byte{10, 0, 0, 2}, Port: 7001}
+		}
+		return &vsys.SockaddrInet4{Addr: [4]byte{10, 0, 0, 1}, Port: 7001}
+	case "v6-ports":
+		return v6(1, label, 0)
+	case "v6-ips":
+		if second {
+			return v6(2, 7001, 0)
+		}
+		return v6(1, 7001, 0)
+	case "v6-zones":
+		if second {
+			return v6(1, 7001, 2)
+		}
+		return v6(1, 7001, 1)
+	}
+	return &vsys.SockaddrInet4{Addr: [4]byte{10, 0, 0, 1}, Port: label}
+}
+
+// sameEndpoint compares a connection's reported remote address with a socket address (IP and
+// port; the zone name depends on the host's interface table and is not compared).
+func sameEndpoint(ra net.Addr, sa vsys.Sockaddr) bool {
+	ua, ok := ra.(*net.UDPAddr)
+	if !ok {
+		return false
+	}
+	switch a := sa.(type) {
+	case *vsys.SockaddrInet4:
+		return ua.Port == a.Port && ua.IP.Equal(net.IP(a.Addr[:]))
+	case *vsys.SockaddrInet6:
+		return ua.Port == a.Port && ua.IP.Equal(net.IP(a.Addr[:]))
+	}
+	return false
 }
 
 var lastCounters map[string]int
@@ -237,41 +290,59 @@ func udpBody(c cfg, dgs []dg) func() {
 			vsched.GoNamed(fmt.Sprintf("remote%d", port), func() {
 				for j, d := range byPort[port] {
 					p := ekit.Payload(port*4+j, d.n)
+					p[0] = byte(16*(port-7000) + j + 1) // pairwise different payloads: the oracle recognises the sender by them
 					sent[port] = append(sent[port], p)
-					up.Send(port, p)
+					up.SendFrom(remoteAddr(c.addrs, port), p)
 				}
 			})
 		}
 		vsched.WaitIdle()
-		// oracle
+		// oracle: the sender of a delivered datagram is recognised by its payload (payloads are
+		// pairwise different), the connection must be the sender's and report the sender's address
 		connOf := map[int]*nbio.Conn{}
 		portOf := map[*nbio.Conn]int{}
 		next := map[int]int{}
+		senderOf := func(data []byte) (int, int) {
+			for _, port := range ports {
+				for i, p := range sent[port] {
+					if string(p) == string(data) {
+						return port, i
+					}
+				}
+			}
+			return 0, -1
+		}
 		for _, r := range recs {
 			ra := r.conn.RemoteAddr()
 			if ra == nil {
 				fails = append(fails, "udp-attribution|datagram delivered on a connection without remote address")
 				continue
 			}
-			port := 0
-			fmt.Sscanf(ra.String()[strings.LastIndex(ra.String(), ":")+1:], "%d", &port)
+			port, idx := senderOf(r.data)
+			if idx < 0 {
+				fails = append(fails, fmt.Sprintf("udp-boundary|a datagram of %d bytes %v was delivered (on the connection of %v) that no remote sent in this form", len(r.data), r.data, ra))
+				continue
+			}
+			if !sameEndpoint(ra, remoteAddr(c.addrs, port)) {
+				fails = append(fails, fmt.Sprintf("udp-attribution|a datagram of remote %v was delivered on a connection whose remote address is %v", remoteAddr(c.addrs, port), ra))
+			}
 			if pc, ok := connOf[port]; ok && pc != r.conn {
-				fails = append(fails, fmt.Sprintf("udp-attribution|datagrams of remote :%d were delivered on two different connections", port))
+				fails = append(fails, fmt.Sprintf("udp-attribution|datagrams of remote %v were delivered on two different connections", remoteAddr(c.addrs, port)))
 			}
 			connOf[port] = r.conn
 			if pp, ok := portOf[r.conn]; ok && pp != port {
-				fails = append(fails, "udp-attribution|one connection received datagrams of two remotes")
+				fails = append(fails, fmt.Sprintf("udp-attribution|one connection received datagrams of two remotes (%v and %v)", remoteAddr(c.addrs, pp), remoteAddr(c.addrs, port)))
 			}
 			portOf[r.conn] = port
 			i := next[port]
-			if i >= len(sent[port]) {
-				fails = append(fails, fmt.Sprintf("udp-duplicated|remote :%d sent %d datagrams, more were delivered", port, len(sent[port])))
+			switch {
+			case idx < i:
+				fails = append(fails, fmt.Sprintf("udp-duplicated|datagram %d of remote :%d was delivered twice", idx, port))
 				continue
+			case idx > i:
+				fails = append(fails, fmt.Sprintf("udp-order|datagram %d of remote :%d was delivered before datagram %d", idx, port, i))
 			}
-			if string(r.data) != string(sent[port][i]) {
-				fails = append(fails, fmt.Sprintf("udp-boundary|datagram %d of remote :%d: sent %d bytes %v, delivered %d bytes %v", i, port, len(sent[port][i]), sent[port][i], len(r.data), r.data))
-			}
-			next[port] = i + 1
+			next[port] = idx + 1
 		}
 		delivered := 0
 		for _, port := range ports {
@@ -369,12 +440,24 @@ func build(tier string) []*vkit.Scenario {
 					if thorough {
 						p, d = 2, 1
 					}
-					c := cfg{mode: e.mode, async: e.async, exec: e.exec, npoller: 1, b: b, maxReads: mr, trans: "udp", bursts: []int{len(dgs)}, conns: 1, p: p, d: d}
-					c.bursts = nil
-					for _, x := range dgs {
-						c.bursts = append(c.bursts, x.port*10+x.n)
+					sets := []string{"v4-ports"}
+					if len(dgs) > 2 || (len(dgs) == 2 && dgs[0].port != dgs[1].port) {
+						// two remotes: their addresses differ in the port only, in the IP only, in
+						// the zone only; IPv4 and IPv6
+						if thorough || (len(dgs) == 2 && mr == 1) {
+							sets = append(sets, "v4-ips", "v6-ports", "v6-ips", "v6-zones")
+						}
+					} else if mr == 1 && b == 2 {
+						sets = append(sets, "v6-ports")
 					}
-					add(c, udpBody(c, dgs))
+					for _, set := range sets {
+						c := cfg{mode: e.mode, async: e.async, exec: e.exec, npoller: 1, b: b, maxReads: mr, trans: "udp", bursts: []int{len(dgs)}, conns: 1, p: p, d: d, addrs: set}
+						c.bursts = nil
+						for _, x := range dgs {
+							c.bursts = append(c.bursts, x.port*10+x.n)
+						}
+						add(c, udpBody(c, dgs))
+					}
 				}
 			}
 		}
